@@ -1,5 +1,6 @@
 """C20 — F1 arithmetic of the change-point search cannot overflow (hence no spinning in release builds),
-F3 protocol shape, F4 length tables monotone and Kraft-bounded."""
+F3 protocol shape, F4 length tables monotone and Kraft-bounded,
+F2/F5 every length function monotone and Kraft-bounded over the whole 64-bit domain (value-partition interpreter)."""
 import mir
 import rules_num as rn
 import rules_tables as rt
@@ -66,5 +67,7 @@ def run_all(chk, fsets, tier):
     chk.rule("F1.arith", floor=8, doc="E3: every arithmetic assert in FindChangePoints::next is discharged from the guards of the search (so release builds cannot wrap and spin)")
     rn.run_specs(chk, F, specs, "F1.arith", fsets[0])
     rt.check_kraft_monotone(chk, F, "F4.tables")
+    import rules_ivl
+    rules_ivl.run_c20(chk, F, fsets[0], tier)
     chk.assume("the debug assertions f(x) >= prev_value express the property's hypothesis (f non-decreasing) and are not obligations")
     chk.trust("rustc MIR construction and the mirx exporter; contracts; exact rational simplex")
